@@ -17,7 +17,7 @@ Filt(e, chain) == IF chain = <<>> THEN e ELSE [t |-> "filt", e |-> e, chain |-> 
 Bin(op, a, b) == [t |-> "bin", op |-> op, a |-> a, b |-> b]
 
 Ctx == [v |-> S(<<"a", "b">>), p |-> S(<<"y">>), l |-> L(<<I(10), I(11), I(12), I(13), I(14), I(15)>>),
-        mp |-> M(<<P(S(<<"k">>), S(<<"w">>))>>), sv |-> S(<<"a", " ", "b">>), n2 |-> I(2)]
+        mp |-> M(<<P(S(<<"k">>), S(<<"w">>))>>), sv |-> S(<<"a", " ", "b">>), n2 |-> I(2), m1 |-> I(0 - 1)]
 
 FSeq == << FC("upper", NoArg), FC("lower", NoArg), FC("capfirst", NoArg), FC("add", Lit(S(<<"x">>))), FC("add", Var(<<"p">>)),
            FC("add", Var(<<"mp", "k">>)), FC("cut", Lit(S(<<"a">>))), FC("default", Lit(S(<<"d">>))), FC("first", NoArg),
@@ -90,6 +90,16 @@ Init ==
                  LET operand == IF a = 1 THEN Lit(I(5)) ELSE Var(<<"n2">>) IN
                  /\ Positions[pos] # "operand"          \* (the grammar admits a sign only at the start of an expression)
                  /\ prog = At(Positions[pos], [t |-> "neg", a |-> Filt(operand, chain)], chain)
+       [] Family = "rec" ->
+            \* the filter tag inside a macro that calls itself from the tag's body: every activation filters its own body
+            \E f \in {"upper", "lower", "capfirst", "length"}, depth \in 0..3, twice \in BOOLEAN :
+               LET call(e) == [t |-> "call", name |-> "tree", args |-> <<e>>] IN
+               LET inner == <<T(<<"n">>), Out(Var(<<"n">>)),
+                              [t |-> "if", conds |-> <<Bin("<", Lit(I(0)), Var(<<"n">>))>>,
+                               bodies |-> << <<T(<<"(", "x">>), Out(call(Bin("+", Var(<<"n">>), Var(<<"m1">>)))), T(<<")">>)>> >>]>> IN
+               LET body == <<[t |-> "filter", chain |-> <<FC(f, NoArg)>>, body |-> inner]>> IN
+               prog = <<[t |-> "macro", name |-> "tree", params |-> <<[name |-> "n", def |-> NoArg]>>, export |-> FALSE, body |-> body],
+                        Out(call(Lit(I(depth))))>> \o (IF twice THEN <<T(<<"|">>), Out(call(Lit(I(1))))>> ELSE <<>>)
        [] Family = "sym1" ->
             \E f \in RegFilters, a \in 1..Len(SymArgs), src \in {"sv", "n2", "l"} :
                prog = <<Out(Filt(Var(<<src>>), <<FC(f, SymArgs[a])>>))>>
@@ -108,7 +118,7 @@ Init ==
                \/ prog = <<[t |-> "filter", chain |-> <<FC(f1, NoArg), FC(f2, SymArgs[a])>>, body |-> <<T(<<"a", " ", "b">>), Out(Var(<<"n2">>))>>]>>
 Next == go = FALSE /\ go' = TRUE /\ UNCHANGED prog
 
-Res == IF Family \in {"pos", "arrparam", "neg"} THEN RenderF(prog, Ctx, Files) ELSE RenderSym(prog, Ctx, Files)
+Res == IF Family \in {"pos", "arrparam", "neg", "rec"} THEN RenderF(prog, Ctx, Files) ELSE RenderSym(prog, Ctx, Files)
 Balanced == go => ScopesBalanced(Res)
 \* on the model: the filter events of one chain appear in written order
 EmitVec == go => PrintT(ToJson([m |-> "C19", prog |-> prog, ctx |-> Ctx, files |-> Files, tags |-> <<Family>>,
